@@ -240,7 +240,7 @@ def listing(d):
     return out
 
 
-def library_run(pystog, kwargs, d, skiprows=None):
+def library_run(pystog, kwargs, d, skiprows=None, errors=None):
     """drive the library with the same settings (the documented sequence)"""
     cwd = os.getcwd()
     os.chdir(d)
@@ -261,6 +261,10 @@ def library_run(pystog, kwargs, d, skiprows=None):
             r, g = st.apply_lorch(q, sq, r)
         st._add_keen_fq(q, sq)
         st._add_keen_gr(r, g)
+    except Exception as e:
+        if errors is None:
+            raise
+        errors.append("%s: %s" % (type(e).__name__, str(e)[:200]))
     finally:
         os.chdir(cwd)
     return listing(d)
@@ -379,8 +383,13 @@ def run_impl(pystog, case):
                 intended["FourierFilter"] = {"Cutoff": v_["cutoff"]}
         try:
             with contextlib.redirect_stdout(io.StringIO()):
-                res["lib_files"] = library_run(pystog, intended, db)
-                res["lib3_files"] = library_run(pystog, intended, dc, skiprows=3)
+                e2, e3 = [], []
+                res["lib_files"] = library_run(pystog, intended, db, errors=e2)
+                res["lib3_files"] = library_run(pystog, intended, dc, skiprows=3, errors=e3)
+                if e2:
+                    res["lib_error"] = e2[0]
+                if e3:
+                    res["lib3_error"] = e3[0]
         except Exception as e:
             res["lib_error"] = "%s: %s" % (type(e).__name__, str(e)[:200])
     shutil.rmtree(base, ignore_errors=True)
@@ -484,11 +493,21 @@ def oracle(pystog, case, res):
         return None
     if "status" in res:
         return None
-    if "cli_error" in res:
-        return "pystog_cli raised %s (form %s, FourierFilter %s, LorchFlag %s)" % (res["cli_error"], case["desc"]["form"], res["kwargs"].get("FourierFilter", "absent"), res["kwargs"].get("LorchFlag", "absent"))
-    if "lib_error" in res:
-        return "driving the library with the same settings raised %s" % res["lib_error"]
+    # the entry point and the library driven with the same settings must behave alike: a step that
+    # fails must fail in both (with the same error), and the files written up to then must agree
+    ce, le, l3 = res.get("cli_error"), res.get("lib_error"), res.get("lib3_error")
+    if ce is not None and ce != le and ce != l3:
+        return "pystog_cli raised %s (form %s, FourierFilter %s, LorchFlag %s) where driving the library with the same settings %s" % (
+            ce, case["desc"]["form"], res["kwargs"].get("FourierFilter", "absent"), res["kwargs"].get("LorchFlag", "absent"),
+            "did not raise" if le is None else "raised %s" % le)
+    if ce is None and le is not None and l3 is not None:
+        return "driving the library with the same settings raised %s where pystog_cli did not raise" % le
+    if "lib_files" not in res:
+        return "driving the library with the same settings raised %s" % le
     a, b = res["cli_files"], res["lib_files"]
+    if ce != le and ce == l3 and all(a.get(n) == res["lib3_files"].get(n) for n in set(a) | set(res["lib3_files"])):
+        return "CLI output differs from the library only because the CLI reads input with skiprows=3 (first data row of each file dropped): the library %s, the CLI %s" % (
+            "raised %s" % le if le else "did not raise", "raised %s" % ce if ce else "did not raise")
     if sorted(a) != sorted(b):
         return "CLI wrote files %r, the library %r" % (sorted(a), sorted(b))
     diff = [n for n in a if a[n] != b[n]]
